@@ -54,10 +54,6 @@ def parse_triggers(t, text=None):
             keys.append("named-params-3plus")
         if n[0] == "lam" and path_len(n[1]) >= 3:
             keys.append("lambda-owner-deep")
-        if n[0] == "attr" and path_len(n) >= 3 and path_root(n)[2]:
-            keys.append("namespace-lost-in-path")
-        if n[0] == "lam" and path_len(n[1]) >= 2 and path_root(n[1])[2]:
-            keys.append("namespace-lost-in-path")
     return keys
 
 
@@ -224,9 +220,12 @@ def _to_one_targets(t, root):
     return out
 
 
-def relational_triggers(t, backend, flags, prob, root="post"):
+def relational_triggers(t, backend, flags, prob, root="post", detail=None):
     keys = []
-    if backend == "sqlalchemy" and any(len(v) > 1 for v in _to_one_targets(t, root).values()):
+    # the listed finding is an *execution error* (ambiguous column); wrong rows for such a
+    # filter are a different failure and stay a violation
+    if backend == "sqlalchemy" and any(len(v) > 1 for v in _to_one_targets(t, root).values()) \
+            and str(prob).startswith("backend-raises") and "ambiguous column" in str(detail):
         keys.append("sqla-same-entity-via-two-paths")
     has_all = any(n[0] == "lam" and n[2] == "all" for n in T.walk(t))
     rels = {"author", "country", "post"}
